@@ -184,7 +184,10 @@ Qed.
 (* the children of a <set> are not read *)
 Lemma loop_set proc tm vl par db pr lg l iend send kids anims pf nst :
   children_loop proc tm vl KSet par db pr lg l iend send kids anims pf nst = LDone iend kids anims pf nst.
-Proof. destruct l as [|c l]; cbn [children_loop]; [reflexivity|]. cbn [ekind_eqb ekind_code Z.eqb andb]. destruct (negb par && _); reflexivity. Qed.
+Proof.
+  revert iend send kids anims pf nst. induction l as [|c l IH]; intros iend send kids anims pf nst; cbn [children_loop]; [reflexivity|].
+  cbn [ekind_eqb ekind_code Z.eqb andb]. destruct (negb par && _); [apply IH|reflexivity].
+Qed.
 
 Section Main.
   Variable ev : env.
@@ -255,7 +258,8 @@ Section Main.
         specialize (IH _ _ _ _ _ _ _ _ _ _ H).
         destruct iend as [ie|]; [|exact IH]. intros cursor Hse Hcur. cbn [seq_dur]. rewrite (is_style_not_timed c Es). apply IH; assumption. }
       destruct send as [cur|].
-      2:{ (* break *) inversion H; subst. destruct iF as [ie|]; [|reflexivity]. intros cursor Hse. discriminate. }
+      2:{ (* the child is skipped: it never begins *)
+          specialize (IH _ _ _ _ _ _ _ _ _ _ H). destruct iend as [ie|]; [intros cursor Hse; discriminate|exact IH]. }
       destruct (process ev (mkPctx false (Some cur) pr lg _) c) as [e| |r] eqn:Ep.
       + discriminate.
       + assert (H' : children_loop (process ev) (e_to_model ev) (e_valid ev) k false db pr lg l iend (Some cur) kids anims pf nst = LDone iF kF aF false nF).
